@@ -51,8 +51,6 @@ static const bool INT64_WEIGHTS = true;
 static const bool INT64_WEIGHTS = false;
 #endif
 
-static std::string mkind(const std::string &reason) { return reason.substr(0, 2); }
-
 // does this abstract value carry a finite bound of large magnitude? (int64 DBM guard)
 static bool large_magnitude(const dom_t &inv, const std::vector<var_t> &vars) {
   if (inv.is_bottom())
@@ -78,6 +76,10 @@ struct Visit {
   bool exited = false;      // all statements of the block were executed
 };
 
+// thrown by the recorder to stop an execution whose values explode (x := x*x in a
+// loop doubles the size of the number at every step): outside the model
+struct ValueTooLarge {};
+
 struct Rec : public Observer {
   std::vector<Visit> path;
   std::map<int64_t, bool> *reached = nullptr, *violated = nullptr;
@@ -98,6 +100,8 @@ struct Rec : public Observer {
       path.back().after.push_back(s);
     if (INT64_WEIGHTS && state_has_large_value(s))
       any_large = true;
+    if (state_has_large_value(s, 2048))
+      throw ValueTooLarge{};
   }
   void block_exit(const cfg_t &, const label_t &l, const State &s) override {
     path.back().exited = true;
@@ -227,7 +231,7 @@ static unsigned check_path(CaseCtx &ctx, BwdResult &br, Rec &rec, unsigned upto,
       os << rec.path[j].b << " ";
     os << ") goes on to " << (br.good ? "leave the exit block in the post-condition" : "violate an assertion")
        << " but is not in the reported precondition " << to_str(br.pre(v.b)) << " : " << bad_reason << "\n  " << detail;
-    throw Fail{prop, prefix + culprit + "_" + mkind(bad_reason), os.str()};
+    throw Fail{prop, prefix + culprit, os.str()};
   }
   return (unsigned)informative.size();
 }
@@ -271,7 +275,17 @@ static unsigned connect_to_exit(Tape &t, Program &prog) {
 
 namespace verif {
 void run_case(const uint8_t *data, size_t size, CaseCtx &ctx) {
-  Tape t(data, size);
+  // Tape extension: the quick-tier tapes are often shorter than program + 8..24
+  // executions need, and an exhausted tape makes all executions identical (all
+  // choices 0).  The tape is therefore continued by a deterministic multiplicative
+  // echo of itself (byte (i+k) mod n times an odd factor): still a pure function of
+  // the tape, an all-zero tape stays all-zero (simplest case), deleting bytes still
+  // simplifies the program, which is decoded first.
+  std::vector<uint8_t> ext(data, data + size);
+  for (unsigned k = 1; size > 0 && ext.size() < 1024; k++)
+    for (size_t i = 0; i < size && ext.size() < 1024; i++)
+      ext.push_back((uint8_t)(data[(i + k) % size] * (2 * k + 1)));
+  Tape t(ext.data(), ext.size());
   // ---- parameters --------------------------------------------------------------
   crab::fixpoint_parameters fp;
   fp.get_widening_delay() = t.pick(6);
@@ -300,7 +314,7 @@ void run_case(const uint8_t *data, size_t size, CaseCtx &ctx) {
   // both properties are about assertions: make sure there is at least one, preferably
   // late in the program (appended to a decoded block; 0 = the last block)
   if (part != 2) {
-    unsigned extra = (prog.n_asserts == 0 ? 1 : 0) + t.pick(3);
+    unsigned extra = (prog.n_asserts == 0 ? 1 : 0) + (t.pick(3) == 2 ? 1 : 0);
     for (unsigned i = 0; i < extra; i++) {
       const label_t &l = prog.labels[prog.labels.size() - 1 - t.pick((unsigned)prog.labels.size())];
       cfg.get_node(l).assertion(gen.assert_constraint(), crab::cfg::debug_info("verif", 1, 1, go.first_assert_id + prog.n_asserts));
@@ -319,6 +333,7 @@ void run_case(const uint8_t *data, size_t size, CaseCtx &ctx) {
   R().cls(prog.structured ? "shape_structured" : "shape_unstructured");
   if (added_edges)
     R().cls("shape_edges_added_to_reach_exit");
+  R().cls(prog.labels.size() >= 4 ? "blocks_4plus" : (prog.labels.size() >= 2 ? "blocks_2_3" : "blocks_1"));
   if (prog.n_loops)
     R().cls("has_loop");
   if (prog.n_asserts)
@@ -382,7 +397,7 @@ void run_case(const uint8_t *data, size_t size, CaseCtx &ctx) {
   if (part != 1) {
     // =========================== C11 ==================================================
     bool good = part == 2;
-    unsigned inv_mode = t.pick(2); // 0: no forward invariants, 1: those of a real forward run from init
+    unsigned inv_mode = t.pick(3) ? 1 : 0; // 0: no forward invariants, 1: those of a real forward run from init
     csts_t post_csts;
     dom_t postcond = top.make_bottom();
     if (good) {
@@ -458,7 +473,13 @@ void run_case(const uint8_t *data, size_t size, CaseCtx &ctx) {
       in.obs = &rec;
       if (INT64_WEIGHTS)
         in.big_chance = 0;
-      Stop why = in.run(cfg, start, s);
+      Stop why;
+      try {
+        why = in.run(cfg, start, s);
+      } catch (const ValueTooLarge &) {
+        why = Stop::Outside;
+        in.outside_reason = "value above 2^2048";
+      }
       R().cls(std::string("exec_stop_") + stop_name(why));
       if (why == Stop::Outside)
         R().trunc(in.outside_reason);
@@ -480,6 +501,7 @@ void run_case(const uint8_t *data, size_t size, CaseCtx &ctx) {
       events++;
       unsigned upto = good ? (unsigned)rec.good_upto : (unsigned)rec.path.size() - 1;
       unsigned inf = check_path(ctx, br, rec, upto, !good, mo, good ? "bwd_good_" : "bwd_err_");
+      R().cls(inf >= 2 ? "c11_event_through_2plus_informative_blocks" : (inf == 1 ? "c11_event_through_1_informative_block" : "c11_event_through_0_informative_blocks"));
       if (inf >= 2)
         nt_events++;
     }
@@ -562,7 +584,13 @@ void run_case(const uint8_t *data, size_t size, CaseCtx &ctx) {
     in.obs = &rec;
     if (INT64_WEIGHTS)
       in.big_chance = 0;
-    Stop why = in.run(cfg, cfg.entry(), s);
+    Stop why;
+    try {
+      why = in.run(cfg, cfg.entry(), s);
+    } catch (const ValueTooLarge &) {
+      why = Stop::Outside;
+      in.outside_reason = "value above 2^2048";
+    }
     R().cls(std::string("exec_stop_") + stop_name(why));
     if (why == Stop::Outside)
       R().trunc(in.outside_reason);
@@ -610,11 +638,11 @@ void run_case(const uint8_t *data, size_t size, CaseCtx &ctx) {
         check_path(ctx, br, rec, (unsigned)rec.path.size() - 1, true, mo, "", "C02");
       } catch (const Fail &f) {
         ctx.log << "blame (stand-alone first backward pass): " << f.msg << "\n";
-        return "_" + f.cls;
+        return f.cls;
       }
     } catch (const crab_error &) {
     }
-    return "_unlocalized";
+    return "";
   };
 
   unsigned n_claims = 0, n_reached = 0, n_violated = 0;
@@ -628,8 +656,11 @@ void run_case(const uint8_t *data, size_t size, CaseCtx &ctx) {
     if (kv.second == crab::checker::check_kind::CRAB_SAFE) {
       n_claims++;
       if (v && ctx.want("C02")) {
+        // tag: the backward transfer function to blame when it can be localised, else the route of the verdict
         std::string tag = by_backward.count(kv.first) ? "fwdbwd_discharged_by_backward_but_violated" : (refined ? "fwdbwd_refined_invariant_safe_but_violated" : "fwdbwd_invariant_safe_but_violated");
-        tag += blame(kv.first);
+        std::string culprit = blame(kv.first);
+        if (!culprit.empty())
+          tag = "fwdbwd_safe_but_violated_" + culprit;
         VCHECK(ctx, "C02", false, tag, "assertion id=" << kv.first << " classified SAFE by the forward+backward analysis but a concrete execution violates it");
       }
       VCHECK(ctx, "C02", true, "", "");
@@ -639,7 +670,10 @@ void run_case(const uint8_t *data, size_t size, CaseCtx &ctx) {
         // the stored invariants are intersected with error co-reachability: bottom means
         // "cannot lead to an error", so the verdict is only held to the SAFE standard
         if (v && ctx.want("C02")) {
-          std::string tag = "fwdbwd_refined_unreachable_but_violated" + blame(kv.first);
+          std::string tag = "fwdbwd_refined_unreachable_but_violated";
+          std::string culprit = blame(kv.first);
+          if (!culprit.empty())
+            tag = "fwdbwd_safe_but_violated_" + culprit;
           VCHECK(ctx, "C02", false, tag, "assertion id=" << kv.first << " classified UNREACHABLE (refined invariants) but a concrete execution violates it");
         }
         VCHECK(ctx, "C02", true, "", "");
